@@ -339,6 +339,92 @@ def classify(ans):
     return ans.startswith(ALLOWED)
 
 
+LONG_RUN = 6000          # several times the interpreter's default recursion limit (1000) and a typical 4096-byte buffer
+RUN_CHARS = ["\x00", " ", "\t", ".", ",", "a", "Z", "-", "/", ":", "+", "\u00a0", "\u0660", "7"]
+
+
+def oracle_long_runs(ctx, rng):
+    """long runs (LONG_RUN characters) of every character the lexer skips or loops over — NUL (read-and-discard loop), white space,
+    '.', ',', letters, digits, separators — at the front, in the middle and at the end of a valid rendering, through every input kind
+    (str, bytes, bytearray, text stream) and strict / fuzzy / fuzzy_with_tokens: the outcome must stay inside
+    {datetime, (datetime, tokens), ParserError, OverflowError} (a loop turned into recursion shows as RecursionError), and a run of
+    NULs must not change the answer at all (NULs read from the stream are discarded)."""
+    base = "2014-05-01 08:00:00"
+    vias = ["str", "bytes", "bytearray", "stream"]
+    k = 0
+    for ch in RUN_CHARS:
+        run = ch * LONG_RUN
+        for pos, text in (("front", run + base), ("middle", "2014-05-01" + run + " 08:00:00"), ("end", base + run)):
+            for opt in ({}, {"fuzzy": True}, {"fwt": True}):
+                todo = vias if ch == "\x00" else [vias[k % 4]]
+                k += 1
+                for via in todo:
+                    c = L.Call(text, via=via, tag="long-run", **opt)
+                    ans, dt, _ = L.run_impl(c)
+                    ctx.case(("long-run", ch, pos, via, tuple(sorted(opt))), nontrivial=ans.startswith("ok "))
+                    ctx.count("long_run_calls")
+                    ctx.evaluations += 1
+                    case = c.describe()
+                    case.update({"run_char": ascii(ch), "run_length": LONG_RUN, "position": pos,
+                                 "text_repr": "%s: %r x %d around %r" % (pos, ch, LONG_RUN, base)})
+                    if not classify(ans):
+                        ctx.violation("parse() outcome outside {datetime, (datetime, tuple), ParserError, OverflowError}: %s" % ans[:80],
+                                      case, {"impl": ans})
+                    elif ch == "\x00":
+                        ref, _, _ = L.run_impl(L.Call(text.replace("\x00", ""), via=via, **opt))
+                        if ans != ref:
+                            ctx.violation("NUL characters must be ignored: the answer differs from the text without them", case,
+                                          {"impl": ans, "without_nul": ref})
+
+
+OVERLAP_TEXTS = ["am 10", "I am 10:30", "10:30 am pm", "Sep 25 2003 10 am", "99 foo 10:30", "10:30 a", "2003-09-25 45 10:49",
+                 "today 5 pm ok", "10:49:41 PM", "Sep 2003 32", "a 5", "2003-09-25T10:49:41"]
+OVERLAP_OPTS = [{}, {"fuzzy": True}, {"fwt": True}, {"ignoretz": True}, {"dayfirst": True}, {"yearfirst": True, "fuzzy": True}]
+
+
+def oracle_overlap(ctx, rng):
+    """two OVERLAPPING calls on one parser object (no threads): call A is given a text stream whose first read() runs call B to
+    completion on the same parser (DEFAULTPARSER), then hands A its text.  Every pair of option sets: A's answer and B's answer must
+    be the answers of the same calls run alone ("the outcome is a deterministic function of the arguments"; state kept on the parser
+    instance between the start and the end of a call shows here)."""
+    import io
+    class Overlap(io.StringIO):
+        def __init__(self, text, other):
+            io.StringIO.__init__(self, text)
+            self.other, self.other_answer = other, None
+        def read(self, n=-1):
+            if self.other is not None:
+                o, self.other = self.other, None
+                self.other_answer = L.run_impl(o)[0]
+            return io.StringIO.read(self, n)
+    shown = 0
+    for ta in OVERLAP_TEXTS:
+        for oa in OVERLAP_OPTS:
+            for ob in OVERLAP_OPTS:
+                tb = rng.choice(OVERLAP_TEXTS)
+                alone_a = L.run_impl(L.Call(ta, via="stream", **oa))[0]
+                alone_b = L.run_impl(L.Call(tb, **ob))[0]
+                a = L.Call(ta, via="stream", tag="overlap", **oa)
+                holder = []
+                def factory(ta=ta, tb=tb, ob=ob):
+                    st = Overlap(ta, L.Call(tb, **ob)); holder.append(st); return st
+                a.arg_factory = factory
+                got_a = L.run_impl(a)[0]
+                got_b = holder[0].other_answer if holder else None
+                ctx.case(("overlap", ta, tuple(sorted(oa)), tb, tuple(sorted(ob))), nontrivial=alone_a.startswith("ok "))
+                ctx.count("overlap_pairs")
+                ctx.evaluations += 2
+                if got_a != alone_a or got_b != alone_b:
+                    shown += 1
+                    if shown <= 8:
+                        case = L.Call(ta, via="stream", tag="overlap", **oa).describe()
+                        case.update({"overlapped_with": L.Call(tb, **ob).describe(),
+                                     "how": "the stream's first read() runs the other call on the same DEFAULTPARSER"})
+                        ctx.violation("parse() is not a function of its arguments: a call overlapped with another call on the same parser "
+                                      "object differs from the same call alone", case,
+                                      {"alone": alone_a, "overlapped": got_a, "other_alone": alone_b, "other_overlapped": got_b})
+
+
 def oracle(ctx):
     from dateutil import parser as P
     rng = ctx.subrng("oracle")
@@ -476,6 +562,9 @@ def oracle(ctx):
             if got != "ok":
                 ctx.violation("default=None: %s" % got, {"text": t, "default": None})
         scaling(ctx, 0.06 if not ctx.budget(0, 1) else 0.6)
+        L.set_tz("UTC")
+        oracle_long_runs(ctx, ctx.subrng("long-runs"))
+        oracle_overlap(ctx, ctx.subrng("overlap"))
         # the two-digit-year pivot the model is given comes from the process clock (review3b F8): a wrong pivot in
         # parserinfo.__init__ is reported with a failing input
         L.set_tz("UTC")
@@ -504,6 +593,22 @@ def replay(ctx, payload):
         return False
     if c.get("TZ_sequence") is not None:
         return L.zone_switch_replay(ctx, c)
+    if c.get("overlapped_with") is not None:
+        import io
+        other = L.call_from_case(c["overlapped_with"])
+        class Overlap(io.StringIO):
+            ran = False
+            def read(self, n=-1):
+                if not self.ran:
+                    self.ran = True
+                    L.run_impl(other)
+                return io.StringIO.read(self, n)
+        base = L.call_from_case(c)
+        alone = L.run_impl(base)[0]
+        base.arg_factory = lambda: Overlap(c["text"])
+        got = L.run_impl(base)[0]
+        print("parse(%s) alone = %s; overlapped with parse(%s, …) on the same parser = %s" % (ascii(c["text"]), alone, ascii(other.text), got))
+        return alone == got
     if c.get("family") in SCALING:
         import math
         from dateutil import parser as P
